@@ -38,7 +38,7 @@ func parseRoute(input []byte, route int) (blocks []*commonmark.RootBlock, pm str
 	if route == 0 {
 		blocks, _ = commonmark.Parse(append([]byte(nil), input...))
 	} else {
-		blocks, _, _ = streamParse(append([]byte(nil), input...))
+		blocks, _, _ = streamParseEdgy(append([]byte(nil), input...))
 	}
 	return blocks, ""
 }
